@@ -7,7 +7,8 @@ use autosar_data_specification::*;
 pub const ITEM_NAMES: [&str; 9] = ["a", "a1", "a10", "a1b", "a_1", "b", "a2", "B", "ab"];
 pub const HOSTILE_NAMES: [&str; 8] = ["", "1a", "a b", "a/b", "ä", "a-b", " a", "_x"];
 
-pub const PATTERN_CANDIDATES: [&str; 40] = [
+pub const PATTERN_CANDIDATES: [&str; 54] = [
+    "fe80:0:abcd:1234:0:0:0:1", "%23.456d", "UNSPECIFIED", "ALL", "MAX-TEXT-SIZE", "ARRAY", "0.1.2_something", "aabb9_cd[x][y].cde", "0.0.0-ab-c.0.0+zz-Z", "Q_9", "-a b", "09AZ_-", "identifier-", "STRING",
     "0", "1", "7", "42", "-1", "+3", "0x1F", "0X1f", "0b101", "0B1", "017", "1.5", "-2.25", "1e3", "1.0E-2", "INF", "-INF",
     "NaN", "true", "false", "a", "A_b1", "abc", "Name_1", "/a", "/a/b", "/a1/b/a10", "a/b", "1.2.3", "1.2.3;a", "1.0.0-rc1",
     "2020-01-31", "2020-01-31T12:00:00Z", "12:34:56", "00:11:22:33:44:55", "192.168.0.1", "ANY", "x.y.z", "AA", "_",
